@@ -910,6 +910,64 @@ fn x_case_struct(text: &str, mode: Mode, t: &mut Tally) {
     t.nontrivial(&text);
 }
 
+/// Objects with every pattern of duplicated keys (C02, C05): every value with at most N nodes
+/// over one leaf and the keys {a, b}; every second occurrence of a key is spelled with a
+/// \u escape, so that lookups and deduplication are seen to act on decoded keys.
+pub fn duplicate_key_family(rep: &mut Report, mode: Mode, tier: Tier) {
+    use refmodel::value::Gen;
+    let leaves = [RV::num("0")];
+    let keys = ["a", "b"];
+    let n = tier.pick(6, 7);
+    let g = Gen::new(&leaves, &keys, n);
+    let vals = g.up_to(n);
+    let count = vals.len();
+    fn render(v: &RV, out: &mut String, flip: &mut bool) {
+        match v {
+            RV::Arr(a) => {
+                out.push('[');
+                for (i, x) in a.iter().enumerate() {
+                    if i > 0 {
+                        out.push_str(", ");
+                    }
+                    render(x, out, flip);
+                }
+                out.push(']');
+            }
+            RV::Obj(o) => {
+                out.push('{');
+                for (i, (k, x)) in o.iter().enumerate() {
+                    if i > 0 {
+                        out.push(',');
+                    }
+                    *flip = !*flip;
+                    if *flip {
+                        out.push_str(&format!("\"\\u00{:02x}\" :", k.as_bytes()[0]));
+                    } else {
+                        out.push_str(&format!("\"{k}\":"));
+                    }
+                    render(x, out, flip);
+                }
+                out.push('}');
+            }
+            other => out.push_str(&other.show()),
+        }
+    }
+    let t = explore::par_tally(vals.chunks(128).map(|c| c.to_vec()).collect(), |chunk, t| {
+        for v in chunk {
+            let mut text = String::new();
+            render(&v, &mut text, &mut false);
+            x_case_struct(&text, mode, t);
+            if let Ok(d) = decode(&text) {
+                if d.value != v {
+                    t.violation("MACHINERY-gen", "duplicate-key family: rendered text does not decode to the generated value".to_string(), json!({"text": text}));
+                }
+            }
+        }
+    });
+    rep.bounds["duplicate-key-family"] = json!({"values": count, "max_nodes": n, "keys": keys, "spelling": "every second key occurrence escaped as \\u00XX"});
+    rep.absorb(t);
+}
+
 /// Whitespace variants between any two tokens (C05): documents from a small token grammar
 /// with each of the four JSON whitespace characters inserted at every token boundary.
 pub fn whitespace_family(rep: &mut Report, mode: Mode) {
